@@ -420,3 +420,79 @@ Proof.
   split; [exact (stage_rt_a85 a85enc a85open Ha)|].
   split; [exact (stage_rt_lzw lzwenc lzwopen Hl)|exact (stage_rt_flate zenc zopen Hz)].
 Qed.
+
+(* ------------------------------------------------------------------ (name, parms) pipelines *)
+
+Lemma spec_stage_rt : forall c f, codecs_ok c -> spec_accepted f -> stage_rt (spec_stage c f).
+Proof.
+  intros c [n pm] [Ha [Hl Hz]] Hacc. unfold spec_stage, spec_accepted in *. simpl fst in *. simpl snd in *.
+  destruct n.
+  - exact stage_rt_ahx.
+  - exact stage_rt_rl.
+  - apply stage_rt_a85. exact Ha.
+  - intros x Hb. exists (lzw_encode (c_lzwenc c) pm x).
+    destruct (Hl pm x Hb) as [H1 H2]. split; [reflexivity|]. split; [exact H1|].
+    simpl s_dec. unfold lzw_decode_length, lzw_encode. destruct Hacc as [Hp|Hp]; rewrite Hp.
+    + rewrite H2. reflexivity.
+    + change (1 <? 1) with false. cbv iota. rewrite H2. reflexivity.
+  - apply stage_rt_flate; assumption.
+Qed.
+
+Lemma spec_pipeline_roundtrip : forall c specs x,
+  codecs_ok c -> (forall f, In f specs -> spec_accepted f) -> bytes x ->
+  exists raw, spec_encode c specs x = Some raw /\ spec_decode c specs raw (-1) (-1) = DOk x.
+Proof.
+  intros c specs x Hc Hacc Hb. unfold spec_encode, spec_decode. apply pipeline_roundtrip; [|exact Hb].
+  intros s Hin. apply in_map_iff in Hin. destruct Hin as [f [<- Hf]].
+  apply spec_stage_rt; [exact Hc|apply Hacc; exact Hf].
+Qed.
+
+(* each stage is encoded by the filter constructed from its own (name, parms) *)
+Lemma spec_encode_cons : forall c f rest x,
+  spec_encode c (f :: rest) x =
+  match spec_encode c rest x with Some y => s_enc (spec_stage c f) y | None => None end.
+Proof. reflexivity. Qed.
+
+Lemma spec_decode_stagewise : forall c f rest raw y x,
+  s_dec (spec_stage c f) raw (-1) (-1) = DOk y -> spec_decode c rest y (-1) (-1) = DOk x ->
+  spec_decode c (f :: rest) raw (-1) (-1) = DOk x.
+Proof.
+  intros c f rest raw y x H1 H2. unfold spec_decode, pipe_decode in *. cbn [map pipe_stages].
+  rewrite ml_unbounded. rewrite H1. exact H2.
+Qed.
+
+(* toy codecs satisfying the contracts: the LZW stream records the EarlyChange setting it was written with *)
+Definition toy_lzwenc (ec : bool) (x : list N) : list N := (if ec then 1%N else 0%N) :: x.
+Definition toy_lzwopen (ec : bool) (e : list N) : rstream :=
+  match e with
+  | b :: x => if N.eqb b (if ec then 1%N else 0%N) then (x, REof) else ([], RErr)
+  | [] => ([], RErr)
+  end.
+Definition toy_codecs : codecs :=
+  Build_codecs (fun x => x) (fun e => (e, REof)) toy_lzwenc toy_lzwopen (fun x => x) (fun e => Some (e, REof)).
+
+Lemma toy_codecs_ok : codecs_ok toy_codecs.
+Proof.
+  split; [|split].
+  - intros x Hb. split; [exact Hb|reflexivity].
+  - intros pm x Hb. simpl. unfold toy_lzwenc, toy_lzwopen. split.
+    + constructor; [destruct (lzw_early pm); reflexivity|exact Hb].
+    + rewrite N.eqb_refl. reflexivity.
+  - intros x Hb. split; [exact Hb|reflexivity].
+Qed.
+
+(* An encoder that builds one filter per NAME does not round-trip a pipeline in which LZWDecode occurs
+   twice with different EarlyChange, although every stage is accepted and the codecs meet their contracts. *)
+Lemma name_cached_encoder_refuted : exists c specs x raw,
+  codecs_ok c /\ (forall f, In f specs -> spec_accepted f) /\ bytes x /\
+  spec_encode_cached c specs x = Some raw /\ spec_decode c specs raw (-1) (-1) <> DOk x /\
+  (exists raw', spec_encode c specs x = Some raw' /\ spec_decode c specs raw' (-1) (-1) = DOk x).
+Proof.
+  exists toy_codecs,
+         [(FLZW, Build_parms None None None None (Some 0)); (FLZW, no_parms)],
+         [7%N], [1%N; 1%N; 7%N].
+  split; [exact toy_codecs_ok|]. split.
+  { intros f [<-|[<-|[]]]; left; reflexivity. }
+  split; [repeat constructor|]. split; [reflexivity|]. split; [vm_compute; discriminate|].
+  exists [0%N; 1%N; 7%N]. split; vm_compute; reflexivity.
+Qed.
